@@ -24,7 +24,7 @@ Set-up: create your own scratch worktree `git -C /repo worktree add --detach /tm
 Deliverables — write them to /tmp/mut_out/{pid}/A/ and /tmp/mut_out/{pid}/B/ (create the directories):
   - patch.diff : `git diff` of the change against HEAD (non-test source only; must apply to a clean HEAD with `git apply`)
   - demo.rs (or another suitable name): the demonstration, with a header comment saying exactly where to place it and the exact command to run it
-  - meta.json : {{"property": "{pid}", "summary": "<one sentence: what was changed>", "needs": "<what specific condition is needed for the defect to manifest>", "ran": ["<commands you ran and their outcome: check, existing tests with counts, demo on HEAD, demo with change>"]}}
+  - meta.json : {{"property": "{pid}", "summary": "<one sentence: what was changed>", "needs": "<what specific condition is needed for the defect to manifest>", "demo_path": "<repo-relative path where demo.rs must be placed, e.g. agdb/tests/my_demo_test.rs (or the file to append it to)>", "demo_mode": "file" or "append", "demo_cmd": "<exact cargo test command, run from the repository root>", "ran": ["<commands you ran and their outcome: check, existing tests with counts, demo on HEAD, demo with change>"]}}
 When finished remove the worktree and build output: `git -C /repo worktree remove --force /tmp/mut_{pid}; rm -rf /tmp/mut_{pid}_target`.
 
 Final answer: for A and for B: the file/function changed, why the property breaks, what is needed to trigger it, and the test results (existing tests pass count, demo fails/passes). Be concise.""")
